@@ -6,7 +6,7 @@ import json
 import os
 import random
 
-from .. import casing, common as c, corpus, l2, translate
+from .. import casing, common as c, corpus, l2, translate, namebins
 
 THEOREMS = [("Sylvia.Thm.C05", "C05." + t) for t in
             ["terminates", "panic_sound", "complete", "spec", "rejects_iff", "spec_bytes"]] + \
@@ -96,6 +96,7 @@ def run(ctx):
                    exhaustive_prefix=exhaustive_n, panics=sum(1 for r in impl if r == "panic"),
                    oks=sum(1 for r in impl if r == "ok"), oracle_failures=bad)
     ctx.cov["traces_validated_against_impl"] += len(ops)
+    namebins.stream(ctx)
     ctx.cov["rule"] = ("all tuples of <=%d sorted duplicate-free arrays over {a,ab,b,ba} (exhaustive), then random tuples of 0..8 arrays "
                        "with shared prefixes and non-ASCII names; non-trivial = at least two non-empty arrays; distinct by op text"
                        % ctx.size(3, 5))
